@@ -124,5 +124,39 @@ func Corpus() []*Case {
 		ExprStmt{Match{Target: Ctor{Case: "S", Arg: trS("q")}, Arms: []Arm{{"S", "s", &Block{Stmts: []Stmt{ExprStmt{say("m1")}}, Final: call("say", Var{"s"})}}}, Default: B(say("m2"))}},
 		ExprStmt{If{Cond: trB(false), Then: B(say("no"))}},
 	}, Final: done}))
+	// an inner block-owning construct that is the last thing in an arm body, followed by a continuation of
+	// the OUTER construct (its default arm / next arm): the continuation line is indented less than the inner block
+	inner := func(t Expr) Expr {
+		return Match{Target: t, Arms: []Arm{{"I", "i", B(BinOp{"+", Var{"i"}, IntLit{1}})}, {"S", "_", B(IntLit{20})}, {"N", "", B(IntLit{30})}}}
+	}
+	for _, tc := range []struct {
+		name string
+		t    Expr
+	}{{"taken", Ctor{Case: "I", Arg: trI(1)}}, {"default", Ctor{Case: "N"}}} {
+		out = append(out, mk("nested-match-before-outer-default-"+tc.name, nil, &Block{Stmts: []Stmt{
+			Let{"r", Match{Target: tc.t, Arms: []Arm{
+				{"I", "_", B(inner(Ctor{Case: "S", Arg: trS("s")}))},
+			}, Default: B(IntLit{40})}},
+			ExprStmt{call("frt.Printf1", StrLit{"=%d\n"}, Var{"r"})},
+		}, Final: done}))
+	}
+	out = append(out, mk("nested-match-with-default-before-outer-arm", nil, &Block{Stmts: []Stmt{
+		Let{"r", Match{Target: Ctor{Case: "S", Arg: trS("q")}, Arms: []Arm{
+			{"I", "_", B(Match{Target: Ctor{Case: "N"}, Arms: []Arm{{"I", "i", B(Var{"i"})}}, Default: B(IntLit{50})})},
+			{"S", "_", B(IntLit{60})},
+		}, Default: B(IntLit{70})}},
+		ExprStmt{call("frt.Printf1", StrLit{"=%d\n"}, Var{"r"})},
+	}, Final: done}))
+	out = append(out, mk("nested-string-match-before-outer-default", nil, &Block{Stmts: []Stmt{
+		Let{"r", SMatch{Target: trS("zz"), Lits: []SArm{
+			{"a", B(SMatch{Target: trS("k"), Lits: []SArm{{"k", B(IntLit{1})}}, VarName: "o", Last: B(call("strings.Length", Var{"o"}))})},
+		}, Last: B(IntLit{80})}},
+		ExprStmt{call("frt.Printf1", StrLit{"=%d\n"}, Var{"r"})},
+	}, Final: done}))
+	out = append(out, mk("nested-if-only-before-outer-default", nil, &Block{Stmts: []Stmt{
+		ExprStmt{Match{Target: Ctor{Case: "N"}, Arms: []Arm{
+			{"I", "_", &Block{Stmts: []Stmt{ExprStmt{say("i")}}, Final: If{Cond: trB(true), Then: B(say("t"))}}},
+		}, Default: B(say("dflt"))}},
+	}, Final: done}))
 	return out
 }
